@@ -339,8 +339,8 @@ def finish(a, pid, mod, m, inconclusive, t0, builddir, extra_cov=None):
     if newviol:
         return 1
     if inconclusive or not ok:
-        for i in inconclusive:
-            print(f"INCONCLUSIVE property={pid} {i}")
+        for i in inconclusive[:5]:
+            print(f"INCONCLUSIVE property={pid} {i[-1200:]}")
         return 2
     return 0
 
